@@ -7,6 +7,7 @@ form is checked for not touching its source and the in-place form for equalling 
 """
 from __future__ import annotations
 
+import weakref
 from fractions import Fraction
 
 from . import core
@@ -53,6 +54,19 @@ HEADER_LINES = 1
 _CL = None
 
 
+class _Own:
+    """a callable stored on an instance under the name `own<k>` (strategy pattern); it refers to its owner weakly - a strong
+    reference back would be a cycle and the harness relies on refcounting deaths (`kill`)"""
+
+    __slots__ = ("ref", "name")
+
+    def __init__(self, agent, name):
+        self.ref, self.name = weakref.ref(agent), name
+
+    def __call__(self, d):
+        return 3 * getattr(self.ref(), self.name) + d
+
+
 def classes():
     global _CL
     if _CL is None:
@@ -66,6 +80,7 @@ def classes():
                 self.x = x
                 if y is not None:
                     self.y = y
+                self.own0, self.own1, self.own2 = _Own(self, "x"), _Own(self, "y"), _Own(self, "z")
 
             def plus0(self, d):
                 return self.x + d
@@ -75,6 +90,25 @@ def classes():
 
             def plus2(self, d):
                 return self.z + d
+
+            def base(d):  # (decorated below: a staticmethod)
+                return 2 * d
+
+            base = staticmethod(base)
+
+            @classmethod
+            def rank(cls, d):
+                return classes()[1].index(cls) + d
+
+            # decoys: every instance carries its own `own<k>` (see _Own), which is what `agent.own<k>` means
+            def own0(self, d):
+                return -999
+
+            def own1(self, d):
+                return -999
+
+            def own2(self, d):
+                return -999
 
         class T1(T0):
             pass
@@ -88,6 +122,7 @@ def classes():
                 self.x = x
                 if y is not None:
                     self.y = y
+                self.own0, self.own1, self.own2 = _Own(self, "x"), _Own(self, "y"), _Own(self, "z")
 
             def plus0(self, d):
                 return self.x + d
@@ -97,6 +132,25 @@ def classes():
 
             def plus2(self, d):
                 return self.z + d
+
+            def base(d):  # (decorated below: a staticmethod)
+                return 2 * d
+
+            base = staticmethod(base)
+
+            @classmethod
+            def rank(cls, d):
+                return classes()[1].index(cls) + d
+
+            # decoys: every instance carries its own `own<k>` (see _Own), which is what `agent.own<k>` means
+            def own0(self, d):
+                return -999
+
+            def own1(self, d):
+                return -999
+
+            def own2(self, d):
+                return -999
 
         _CL = (Model, [T0, T1, T2, T3], AgentSet)
     return _CL
@@ -342,6 +396,12 @@ class Impl:
                 r = s.map(lambda a: getattr(a, n) * 2 + 1)
             elif f[0] == "plus":
                 r = s.map(f"plus{int(f[1])}", int(f[2]))
+            elif f[0] == "stat":
+                r = s.map("base", int(f[1])) if int(f[1]) % 2 else s.map("base", d=int(f[1]))
+            elif f[0] == "cls":
+                r = s.map("rank", int(f[1])) if int(f[1]) % 2 else s.map("rank", d=int(f[1]))
+            elif f[0] == "own":
+                r = s.map(f"own{int(f[1])}", int(f[2]))
             else:
                 r = s.map("nosuch")
             self.cur["values"] = r
@@ -624,7 +684,8 @@ def gen_scenario(R, rejecting=False):
         elif k < 0.74:
             lines.append(f"agg {s} {R.choice([0, 0, 1, 2])} {R.choice(['sum', 'min', 'max', 'len'])}")
         elif k < 0.80:
-            lines.append(f"map {s} " + R.choice(["dbl:0", "dbl:1", "plus:0:3", "plus:1:-2", "plus:2:1", "nosuch"]))
+            lines.append(f"map {s} " + R.choice(["dbl:0", "dbl:1", "plus:0:3", "plus:1:-2", "plus:2:1", "nosuch", "stat:3", "stat:-2", "cls:1", "cls:4",
+                                                "own:0:2", "own:1:-1", "own:2:5"]))
         elif k < 0.85:
             lines.append(f"item {s} {R.randrange(-n - 2, n + 2)}")
         elif k < 0.88:
@@ -886,6 +947,12 @@ def _oracle(sc, obs):
                 want = []
             elif f[0] == "dbl":
                 want = [attrs0[i][int(f[1])] * 2 + 1 for i in L]
+            elif f[0] == "stat":
+                want = [2 * int(f[1]) for i in L]  # [a.base(d) for a in members]
+            elif f[0] == "cls":
+                want = [tys[i] + int(f[1]) for i in L]  # [a.rank(d) for a in members]
+            elif f[0] == "own":
+                want = [3 * attrs0[i][int(f[1])] + int(f[2]) for i in L]  # [a.own<k>(d) for a in members]
             else:
                 want = [attrs0[i][int(f[1])] + int(f[2]) for i in L]
             if ev["values"] != want:
